@@ -68,6 +68,8 @@ type caseT struct {
 	LinkOut    bool // uninstall: <root>/<name> is a symbolic link to a directory outside the plugin root (only the link may go)
 	Unreadable bool // list: the process (an unprivileged user) may not read the plugin root, which holds real plugin directories
 	LinkedRoot bool // list: the plugin root itself is reached through a symbolic link (libexec on another volume, a dotfile manager)
+	Alone      bool // uninstall: the named plugin is the only entry of the plugin root (the root itself is not <root>/<name>)
+	NonExec    bool // install from a directory whose only notation-* file lacks the execute bit (the manager sets it - for an acceptable name)
 }
 
 var workerSrc string
@@ -140,6 +142,15 @@ func main() {
 		for _, n := range []string{"good3", "linked.plugin", "notation-x"} {
 			cases = append(cases, caseT{Op: "uninstall", Name: n, Depth: depth, LinkOut: true})
 		}
+		for _, n := range []string{"only", "good", "a.b"} {
+			cases = append(cases, caseT{Op: "uninstall", Name: n, Depth: depth, Alone: true}, caseT{Op: "uninstall", Name: n, Depth: depth, Alone: true, LinkedRoot: true},
+				caseT{Op: "uninstall", Name: n, Depth: depth, Alone: true, Absent: true})
+		}
+		for _, fn := range []string{"..", ".", "good2", ".. ", " ."} {
+			for _, ow := range []bool{false, true} {
+				cases = append(cases, caseT{Op: "install", Name: fn, Depth: depth, Source: "dir", Overwrite: ow, NonExec: true})
+			}
+		}
 		for _, fn := range []string{"..", ".", "good2", "evil", ".. ", " ."} {
 			for _, ow := range []bool{false, true} {
 				cases = append(cases, caseT{Op: "install", Name: fn, Depth: depth, Source: "file", Overwrite: ow}, caseT{Op: "install", Name: fn, Depth: depth, Source: "dir", Overwrite: ow})
@@ -207,6 +218,9 @@ func main() {
 		os.MkdirAll(J(root), 0o755)
 		// legitimate plugins
 		for _, g := range []string{"good", "other"} {
+			if c.Alone {
+				break
+			}
 			link(J(filepath.Join(root, g, "notation-"+g)))
 		}
 		// bystander files everywhere
@@ -299,6 +313,13 @@ func main() {
 			if isValid {
 				allowedPrefix = append(allowedPrefix, filepath.Join(root, c.Name))
 			}
+			if c.LinkedRoot {
+				os.Rename(J(root), J(root+"-real"))
+				os.Symlink(filepath.Base(root)+"-real", J(root))
+				if isValid {
+					allowedPrefix = append(allowedPrefix, filepath.Join(root+"-real", c.Name))
+				}
+			}
 		case "install":
 			if c.LinkOut {
 				// <root>/<name> exists - as a symbolic link to a directory elsewhere (which holds no plugin): whatever Install
@@ -310,7 +331,15 @@ func main() {
 			}
 			src := "/src/notation-" + c.Name
 			link(J(src))
-			os.WriteFile(J(src)+".name", []byte(c.Name), 0o644)
+			if c.NonExec {
+				// a copy without the execute bit (the hard link shares its mode with the worker itself)
+				wb, _ := os.ReadFile(J(src))
+				os.Remove(J(src))
+				os.WriteFile(J(src), wb, 0o644)
+			}
+			if !c.NonExec { // (a second notation-* file would make the lone candidate ambiguous; the sentinel derives the name from its file name)
+				os.WriteFile(J(src)+".name", []byte(c.Name), 0o644)
+			}
 			os.WriteFile(J("/src/LICENSE"), []byte("license"), 0o644)
 			sp.Path = src
 			if c.Source == "dir" {
@@ -320,6 +349,9 @@ func main() {
 			isValid = lexicallyValid(c.Name)
 			if isValid {
 				allowedPrefix = append(allowedPrefix, src+".executed", filepath.Join(root, c.Name))
+				if c.NonExec {
+					allowedPrefix = append(allowedPrefix, src) // (the manager sets the execute bit on the source file it is about to run)
+				}
 			}
 		case "list":
 			os.MkdirAll(J(filepath.Join(root, "b.c", "inner")), 0o755)
@@ -328,6 +360,10 @@ func main() {
 				os.MkdirAll(J(filepath.Join(root, odd)), 0o755)
 			}
 			os.WriteFile(J(filepath.Join(root, "file")), []byte("f"), 0o644)
+			// special files are not directories either (a pipe or socket an agent left behind), and real plugins sort after them
+			syscall.Mkfifo(J(filepath.Join(root, "agent.pipe")), 0o644)
+			syscall.Mknod(J(filepath.Join(root, "b.sock")), syscall.S_IFSOCK|0o644, 0)
+			syscall.Mkfifo(J(filepath.Join(root, ".a-pipe")), 0o644)
 			os.Symlink(filepath.Join(root, "good"), J(filepath.Join(root, "ln-dir")))
 			os.Symlink(filepath.Join(root, "file"), J(filepath.Join(root, "ln-file")))
 			os.Symlink("/does/not/exist", J(filepath.Join(root, "ln-dangling")))
